@@ -354,6 +354,21 @@ func randU64(r *rand.Rand) uint64 {
 }
 
 func randStr(r *rand.Rand, maxLen int) string {
+	if maxLen >= 200 && r.Intn(12) == 0 {
+		// dominated by control characters: in JSON every one of them becomes a six-byte escape
+		l := []int{40, 150, 300, 700, 1200}[r.Intn(5)]
+		if l > maxLen*6 {
+			l = maxLen
+		}
+		b := make([]byte, l)
+		for i := range b {
+			b[i] = byte(1 + r.Intn(31))
+			if r.Intn(9) == 0 {
+				b[i] = byte('a' + r.Intn(26))
+			}
+		}
+		return string(b)
+	}
 	var l int
 	switch r.Intn(6) {
 	case 0:
